@@ -30,6 +30,8 @@ for mu in M:
         good = got == mu['expect']
         ok_all &= good
         first = next((l for l in r.stdout.splitlines() if l.startswith('#') or l.startswith('UNDECIDED') or l.startswith('CHECKER')), '')
+        ded = next((l for l in r.stdout.splitlines() if l.startswith('deductive stage:')), '')
+        first = (ded.replace('deductive stage: ', '[').replace(' obligations refuted by the solver', ' refuted').replace('; bounded stage:', ' |') + '] ' if ded else '') + first
         print("%-28s %-4s expect=%-9s got=%-13s %5.1fs  %s" % (mu['id'], 'ok' if good else 'MISS', mu['expect'], got, time.time() - t0,
                                                              first.replace(scr, '<scr>').replace(out, '<out>')[:150]))
         sys.stdout.flush()
